@@ -24,7 +24,7 @@ CLAIMS = {
   note='HeaderUnique hypothesis = known finding D9; CR limitation; standalone whole-file replacement is C19.'),
  'C05': dict(
   technique='Lean 4 proof over mode-gate functions TRANSLATED from the Go source on every run + exhaustive execution of the finite mode table (in-process and in 8 real-environment processes)',
-  text='Proof: tools/extract translates shouldUpdate, shouldCreate, the initialiser of shouldClean and the flag expressions Clean passes into Lean on every run; GoSnaps.Props.C05 proves on that translation, for every string value of UPDATE_SNAPS, that they equal the table of the property, that on CI every gate is closed, that Update(false)/Update(true) override, that a call whose gates are closed leaves the file system untouched, and (by decide on extracted facts) that no function outside the modelled writers mutates the file system. All 360 Match* cells and 96 Clean cells are executed on the real code (in-process, and again in one process per real (CI, UPDATE_SNAPS) environment so the package initialisers run for real) and on the model.',
+  text='Proof: tools/extract translates shouldUpdate, shouldCreate, the initialiser of shouldClean and the flag expressions Clean passes into Lean on every run; GoSnaps.Props.C05 proves on that translation, for every string value of UPDATE_SNAPS, that they equal the table of the property, that on CI every gate is closed, that Update(false)/Update(true) override, that a call whose gates are closed leaves the file system untouched, and (by decide on extracted facts) that no function outside the modelled writers mutates the file system. All 360 Match* cells and 96 Clean cells, and the cells with a present entry again on snapshot files with CR LF / mixed line endings and hand-edited spacing (792 + 288 cells in all), are executed on the real code (in-process, and again in one process per real (CI, UPDATE_SNAPS) environment so the package initialisers run for real) and on the model.',
   note='ciinfo.IsCI and os.Getenv are inputs; the extractor/translator is trusted (a construct outside its Go subset fails the run).'),
  'C07': dict(
   technique='Lean 4 proof (occurrences cover every addressed ordinal; registered entries are collected and re-emitted) + differential correspondence + addressed-slot oracle',
